@@ -1,4 +1,5 @@
 CONSTANTS
+  ProtoIdx = {}
   Literals <- LitFar
   ExploreOps <- ExploreFar
   ProbeOps <- ProbeFar
